@@ -96,7 +96,7 @@ INDEX_STARTS = [0, 1, 250, 254, 255, 256, 1000, 32767, 65520, 65530]
 class C10(Prop):
     id = "C10"
     translators = ["gen_conversions"]
-    proof_targets = ["App/ConvertProofs.vo", "App/FloatBitsProofs.vo"]
+    proof_targets = ["App/ConvertProofs.vo", "App/FloatBitsProofs.vo", "App/ConvertStaticProofs.vo", "App/ConvertBytesProofs.vo", "App/FloatBitsFlocq.vo"]
     property_file = "Properties/C10.v"
     theorems = []
     modelled = ("modelled by hand over generated recipes: app/gen/conversion.rs, app/extensions.rs, AnalogConversions, "
@@ -172,10 +172,7 @@ class C10(Prop):
             s.add(rng.choice([0, 255, 256, 65535, rng.below(65536), rng.below(300)]))
         return sorted(s)
 
-    def static_trip(self, rng, tier):
-        ty = rng.choice(TYPES + ['ai', 'aos', 'ai'])
-        if rng.chance(1, 25):
-            ty = 'oct'
+    def static_trip(self, rng, tier, ty):
         n = rng.range(1, 12)
         idx = self.indices(rng, n)
         rng.shuffle(idx)
@@ -200,10 +197,7 @@ class C10(Prop):
             sel += ":%d-%d" % (lo, max(lo, hi))
         return ["st", ty, sel, len(entries)] + [x for e in entries for x in e], {"kind": "st", "ty": ty, "sel": sel, "entries": entries}
 
-    def event_trip(self, rng, tier):
-        ty = rng.choice(TYPES + ['bi', 'dbi', 'bi', 'dbi', 'ai'])
-        if rng.chance(1, 25):
-            ty = 'oct'
+    def event_trip(self, rng, tier, ty):
         n = rng.range(1, 10)
         idx = self.indices(rng, rng.range(1, 4))
         evar = {i: (rng.choice(EVENT[ty]) if ty != 'oct' else None) for i in idx}
@@ -248,12 +242,19 @@ class C10(Prop):
         for s in range(nscripts):
             sid = "c10_%d" % s
             ops, trips = [], []
+            # one script = five trips of one kind and one point type (keeps the histogram readable)
+            static = rng.chance(1, 2)
+            if static:
+                ty = rng.choice(TYPES + ['ai', 'aos', 'ai'])
+            else:
+                ty = rng.choice(TYPES + ['bi', 'dbi', 'bi', 'dbi', 'ai'])
+            if rng.chance(1, 25):
+                ty = 'oct'
             for _ in range(per):
-                op, meta = (self.static_trip if rng.chance(1, 2) else self.event_trip)(rng, tier)
+                op, meta = (self.static_trip if static else self.event_trip)(rng, tier, ty)
                 ops.append(op)
                 trips.append(meta)
-            kinds = sorted(set(t["kind"] + "-" + t["ty"] for t in trips))
-            out.append(Case(sid, script_text(sid, "conv", {}, ops), {"kind": "+".join(kinds)[:40], "trips": trips}))
+            out.append(Case(sid, script_text(sid, "conv", {}, ops), {"kind": ("st-" if static else "ev-") + ty, "trips": trips}))
         return out
 
     # ---- oracle -------------------------------------------------------------------------------------
